@@ -48,13 +48,15 @@ Theorem identity_verbatim_stmt : forall (isln : N -> bool) (lower : N -> N) (pri
     refactor_template isln lower printable (fun _ => None) tops s = Ok (s, errs, inside).
 Proof. intros isln lower printable tops s H0 Hn. exact (refactor_unchanged_verbatim isln lower H0 printable tops s Hn). Qed.
 
-(* ContextRefRename changes exactly the matching references *)
+(* ContextRefRename changes exactly the matching free references *)
 Theorem rename_exact_stmt : forall (is_from : ExSyntax.text -> bool) (to : ExSyntax.text) e,
-  refs (rename is_from to e) = map (fun n => if is_from n then to else n) (refs e)
+  frefs is_from (rename is_from to e) = map (fun n => if is_from n then to else n) (frefs is_from e)
+  /\ brefs is_from (rename is_from to e) = brefs is_from e
   /\ erase (rename is_from to e) = erase e
-  /\ (existsb is_from (refs e) = false -> rename is_from to e = e /\ rename_tx is_from to e = None).
+  /\ (existsb is_from (frefs is_from e) = false -> rename is_from to e = e /\ rename_tx is_from to e = None).
 Proof.
-  intros is_from to e. destruct (rename_exact is_from to e) as [H1 H2]. split; [exact H1|]. split; [exact H2|].
+  intros is_from to e. destruct (rename_exact is_from to e) as (H1 & H2 & H3).
+  split; [exact H1|]. split; [exact H2|]. split; [exact H3|].
   intros H. split; [apply rename_no_match; exact H|]. unfold rename_tx. rewrite H. reflexivity.
 Qed.
 
